@@ -1,26 +1,14 @@
 import UtlsVerif.Line
-import UtlsVerif.Drv.C24
-import UtlsVerif.Drv.C36
-import UtlsVerif.Drv.C04
-import UtlsVerif.Drv.C30
-import UtlsVerif.Drv.C08
-/-! `utlsmodel` — reads case lines on stdin, prints one verdict per line. Core Lean only. -/
+import UtlsVerif.DrvAll
+/-! `utlsmodel` — reads case lines on stdin, prints one verdict per line. Core Lean only.
+Families come from the `families` list of every `UtlsVerif/Drv/*.lean` (collected into the
+generated `UtlsVerif/DrvAll.lean` by tools/gendrv.py). -/
 open Line
 
 def dispatch (c : Case) : Verdict :=
-  match c.family with
-  | "varint" => Drv.C24.varint c
-  | "varint_read" => Drv.C24.varintRead c
-  | "tps" => Drv.C24.tps c
-  | "lru" => Drv.C36.lru c
-  | "lru_conc" => Drv.C36.lruConc c
-  | "grease_val" => Drv.C04.greaseVal c
-  | "grease_hello" => Drv.C04.greaseHello c
-  | "grease_quic" => Drv.C04.greaseQuic c
-  | "prng" => Drv.C30.prng c
-  | "prng_conc" => Drv.C30.prngConc c
-  | "ext" => Drv.C08.ext c
-  | f => .bad s!"unknown family {f}"
+  match DrvAll.families.find? (·.1 == c.family) with
+  | some (_, f) => f c
+  | none => .bad s!"unknown family {c.family}"
 
 partial def loop (h : IO.FS.Stream) (out : IO.FS.Stream) : IO Unit := do
   let line ← h.getLine
